@@ -10,6 +10,7 @@ import (
 	"regexp"
 	"strings"
 	"sync"
+	"sync/atomic"
 	"testing/synctest"
 	"time"
 
@@ -116,6 +117,19 @@ func ProgString(p []Op) string {
 	return strings.Join(s, " ")
 }
 
+// ParseProg is the inverse of ProgString.
+func ParseProg(s string) []Op {
+	var out []Op
+	for _, f := range strings.Fields(s) {
+		o := Op{Kind: f[0]}
+		if len(f) > 1 {
+			fmt.Sscanf(f[1:], "%d", &o.Arg)
+		}
+		out = append(out, o)
+	}
+	return out
+}
+
 type handle struct {
 	s      *appencryption.Session
 	part   string
@@ -130,7 +144,25 @@ var LastLedger []string
 // SharedIK makes the programs that follow run with cached sessions over one shared intermediate-key cache.
 var SharedIK bool
 
+// Started counts programs begun; Current describes the one that is running (for the caller's progress watchdog: a
+// lock that is never released blocks a bubble without ever making it "durably blocked").
+var (
+	Started atomic.Int64
+	Current atomic.Value // CurrentProgram
+)
+
+// CurrentProgram is what RunProgram was called with.
+type CurrentProgram struct {
+	Policy string
+	Size   int
+	Prog   []Op
+	Dur    time.Duration
+	Shared bool
+}
+
 func RunProgram(w *world.World, policy string, size int, prog []Op, dur time.Duration) (sig, detail string, stats [3]int) {
+	Current.Store(CurrentProgram{policy, size, append([]Op(nil), prog...), dur, SharedIK})
+	Started.Add(1)
 	ledStart := w.Led.Len()
 	LastLedger = nil
 	cfg := world.Default(100*time.Hour, 50*time.Hour, time.Minute)
